@@ -94,7 +94,7 @@ class CallMixin:
         if isinstance(o, SNone):
             return [self.raise_(st, 'AttributeError', origin='None.%s L%d' % (attr, ln))]
         if isinstance(o, SStr):
-            if attr in ('strip', 'startswith', 'endswith', 'split'):
+            if attr in ('strip', 'startswith', 'endswith', 'split', 'replace'):
                 out = []
                 for s2, isnull in self.branch(st, o.t == none_s, 'isnone'):
                     if isnull:
@@ -610,7 +610,16 @@ class CallMixin:
         return self.c_apply('lib.ElementTree.parse', st, {'source': pos[0]})
 
     def bi_xml_etree_ElementTree_tostring(self, f, pos, kws, st, ln):
-        return self.c_apply('lib.ElementTree.tostring', st, {'element': pos[0]})
+        e = pos[0]
+        if isinstance(e, SNone) or (isinstance(e, SNode) and False):
+            return [self.raise_(st, 'AttributeError', origin='tostring(None) L%d' % ln)]
+        out = []
+        for s2, isnull in self.branch(st, e.t == null, 'isnone'):
+            if isnull:
+                out.append(self.raise_(s2, 'AttributeError', origin='tostring(None) L%d' % ln))
+            else:
+                out.extend(self.c_apply('lib.ElementTree.tostring', s2, {'element': e}))
+        return out
 
     def c_apply(self, name, st, bound):
         c = self.contracts.get(name)
@@ -626,6 +635,12 @@ class CallMixin:
         if s.py is not None:
             return [(st, self.lit(s.py.strip()))]
         r = SStr(L.s_strip(s.t))
+        st.assume(r.t != none_s)
+        return [(st, r)]
+
+    def bi_str_replace(self, f, pos, kws, st, ln):
+        self.assumed_used.add('A-STR')
+        r = SStr(L.mkfun('str_replace', Str, Str, Str, Str)(f.self_val.t, pos[0].t, pos[1].t))
         st.assume(r.t != none_s)
         return [(st, r)]
 
